@@ -29,7 +29,7 @@ BUILD = os.path.join(VERIF, ".build")
 # committed evidence or the replay directory of /repo's own runs.
 ALT = os.path.realpath(REPO) != "/repo"
 OUTROOT = os.path.join(BUILD, "alt", hashlib.sha256(os.path.realpath(REPO).encode()).hexdigest()[:10]) if ALT else VERIF
-DRIVER = os.path.join(LEAN, ".lake", "build", "bin", "popsdriver")
+DRIVER = os.environ.get("VERIF_DRIVER") or os.path.join(LEAN, ".lake", "build", "bin", "popsdriver")
 ALLOWED_AXIOMS = {"propext", "Classical.choice", "Quot.sound"}
 FORBIDDEN = re.compile(r"\bsorry\b|\badmit\b|^\s*axiom\s|native_decide|bv_decide|implemented_by|\bunsafe\s|maxHeartbeats\s+0\b", re.M)
 CXXFLAGS = ["-std=c++17", "-O1", "-g", "-fsanitize=address,undefined", "-fno-sanitize-recover=all",
@@ -368,8 +368,12 @@ def main():
             log("VIOLATION property=%s replay=%s" % (pid, a.replay)); sys.exit(1)
         log("replay: no violation on the current tree"); sys.exit(0)
 
-    # 1. proof obligations
-    obligations, discharged, problems, lean_details = lean_audit(pid, cfg, tier == "thorough")
+    # 1. proof obligations (VERIF_SKIP_LEAN=1 is honoured only for runs against another tree - the
+    # mutation survey: the theorems are about the model and do not depend on the C++ tree under test)
+    if ALT and os.environ.get("VERIF_SKIP_LEAN") == "1":
+        obligations, discharged, problems, lean_details = len(cfg["theorems"]), 0, [], {"skipped": "VERIF_SKIP_LEAN"}
+    else:
+        obligations, discharged, problems, lean_details = lean_audit(pid, cfg, tier == "thorough")
     for p in problems:
         log("PROOF-OBLIGATION BROKEN: " + p[:600])
 
